@@ -97,7 +97,7 @@ var blockedStates = map[string]bool{
 var DefaultTimerFrames = []string{
 	"time.Sleep",
 	"pubsub/sync.WaitGroupTimeout",
-	"middleware.Retry.Middleware",
+	"Retry.Middleware",
 	"middleware.(*Throttle)",
 	"middleware.Throttle",
 	"components/requeuer.",
